@@ -88,3 +88,10 @@ Proof.
   split; [eexists; split; vm_compute; reflexivity|].
   split; [solve_forall|]. split; [vm_compute; reflexivity|]. split; [discriminate|]. vm_compute. lia.
 Qed.
+
+(* C19: the audit of that stream, computed: seven lookup entries were sent (a datatype entry included), nothing is counted against it *)
+Example audit_of_the_example :
+  exists s, stream_new TripleStream Generic ex_opts = Ok s /\
+    audit (flat_map f_rows (emitted (snd (triples_stream_frames ex_data s)))) =
+    Some {| c_redundant := 0; c_elision := 0; c_zero := 0; c_gstart := 0; c_entries := 7 |}.
+Proof. eexists. split; [vm_compute; reflexivity|]. vm_compute. reflexivity. Qed.
